@@ -57,6 +57,10 @@ import Tie.Excerpt
 #print axioms Sourcer.C11_context_table_identity
 #print axioms Sourcer.C13_late_binding
 #print axioms Sourcer.C13_super
+#print axioms Sourcer.C17_nested_sequences
+#print axioms Sourcer.C17_nested_options
+#print axioms Sourcer.C17_nested_failing_choices
+#print axioms Sourcer.C18_interleaving
 #print axioms Tie.implFlags_sound -- module Tie.Flags
 #print axioms Tie.impl_refines -- module Tie.Flags
 #print axioms Tie.map_index_eq -- module Tie.Excerpt
